@@ -167,7 +167,19 @@ func c08JudgeResponse(p Proto, kind Kind, reqHeader, respHeader http.Header, res
 	i := 0
 	for _, f := range frames {
 		if f.Flags&^1 != 0 {
-			continue // terminator frames are not messages
+			// terminator frames (end-of-stream message, trailer block) are not application
+			// messages, but they are length-prefixed messages on the wire: below the
+			// threshold they go uncompressed like the others
+			if f.Flags&1 != 0 && respAlg != "" {
+				if raw, err := c08Decompress(respAlg, f.Payload); err != nil {
+					viol("lossless", "undecodable", "terminator frame (flags %#02x) does not decompress with %q: %v", f.Flags, respAlg, err)
+					return
+				} else if len(raw) < min {
+					viol("min-bytes", "small-terminator-compressed", "terminator frame (flags %#02x) of %d bytes is below compress-min-bytes %d but was sent compressed", f.Flags, len(raw), min)
+					return
+				}
+			}
+			continue
 		}
 		if i >= len(payloads) {
 			break
